@@ -166,7 +166,13 @@ func (c *Ctx) Sample(s interface{}) {
 func (c *Ctx) Set(k string, v interface{}) { c.mu.Lock(); c.Coverage[k] = v; c.mu.Unlock() }
 func (c *Ctx) AddInt(k string, d int64) {
 	c.mu.Lock()
-	old, _ := c.Coverage[k].(int64)
+	var old int64
+	switch v := c.Coverage[k].(type) {
+	case int64:
+		old = v
+	case int:
+		old = int64(v)
+	}
 	c.Coverage[k] = old + d
 	c.mu.Unlock()
 }
